@@ -44,6 +44,7 @@ theorem setBits_eq_model (c : TracebackCell) (pos value : Nat) (hp : pos < 13) (
   unfold setBits
   simp only [Rs.shl, h16, if_true, Rs.assert, hv, decide_true, Res.pure_eq_ok, Res.ok_bind, bind, Res.bind]
   simp only [shl_mask_small pos hp, shl_val_small pos hp value hv16, not_mask_small pos hp, TbCell.setBits]
+  all_goals (first | rfl | (rw [Nat.or_comm]))
 
 /-- `set_bits` with a value above `TB_MAX` panics (the `assert!`) -/
 theorem setBits_big_panics (c : TracebackCell) (pos value : Nat) (hp : pos < 16) (hv : tbMax < value) :
@@ -190,31 +191,39 @@ theorem shaped_idx {t : Traceback} (hs : Shaped t) {i j : Nat} (hi : i < t.rows)
 theorem tbGet_eq_model (t : Traceback) (i j : Nat) (hs : Shaped t) (hi : i < t.rows) (hj : j < t.cols) :
     tbGet t i j = Rs.idx t.matrix (i * t.cols + j) := by
   obtain ⟨_, h2, h3⟩ := shaped_idx hs hi hj
+  have h3' : j + i * t.cols < 2 ^ 64 := by omega
+  have h2' : t.cols * i < 2 ^ 64 := by rw [Nat.mul_comm]; exact h2
   unfold tbGet
-  simp only [Rs.assert, hi, hj, decide_true, if_true, Rs.add, Rs.mul, h2, h3, Res.pure_eq_ok, Res.ok_bind, bind, Res.bind]
+  simp only [Rs.assert, hi, hj, decide_true, if_true, Rs.add, Rs.mul, h2, h3, h2', h3', Nat.add_comm j (i * t.cols), Nat.mul_comm t.cols i, Res.pure_eq_ok, Res.ok_bind, bind, Res.bind]
   try (cases Rs.idx t.matrix (i * t.cols + j) <;> rfl)
 
 theorem tbGetMut_eq_model (t : Traceback) (i j : Nat) (hs : Shaped t) (hi : i < t.rows) (hj : j < t.cols) :
     tbGetMut t i j = Rs.idx t.matrix (i * t.cols + j) := by
   obtain ⟨_, h2, h3⟩ := shaped_idx hs hi hj
+  have h3' : j + i * t.cols < 2 ^ 64 := by omega
+  have h2' : t.cols * i < 2 ^ 64 := by rw [Nat.mul_comm]; exact h2
   unfold tbGetMut
-  simp only [Rs.assert, hi, hj, decide_true, if_true, Rs.add, Rs.mul, h2, h3, Res.pure_eq_ok, Res.ok_bind, bind, Res.bind]
+  simp only [Rs.assert, hi, hj, decide_true, if_true, Rs.add, Rs.mul, h2, h3, h2', h3', Nat.add_comm j (i * t.cols), Nat.mul_comm t.cols i, Res.pure_eq_ok, Res.ok_bind, bind, Res.bind]
   try (cases Rs.idx t.matrix (i * t.cols + j) <;> rfl)
 
 /-- `set(i, j, v)` overwrites entry `i * cols + j` and nothing else -/
 theorem tbSet_eq_model (t : Traceback) (i j : Nat) (v : TracebackCell) (hs : Shaped t) (hi : i < t.rows) (hj : j < t.cols) :
     tbSet t i j v = Res.ok { t with matrix := t.matrix.set (i * t.cols + j) v } := by
   obtain ⟨h1, h2, h3⟩ := shaped_idx hs hi hj
+  have h3' : j + i * t.cols < 2 ^ 64 := by omega
+  have h2' : t.cols * i < 2 ^ 64 := by rw [Nat.mul_comm]; exact h2
   unfold tbSet
-  simp only [Rs.assert, hi, hj, decide_true, if_true, Rs.add, Rs.mul, h2, h3, Rs.setIdx, h1, Res.pure_eq_ok, Res.ok_bind, bind,
+  simp only [Rs.assert, hi, hj, decide_true, if_true, Rs.add, Rs.mul, h2, h3, h2', h3', Nat.add_comm j (i * t.cols), Nat.mul_comm t.cols i, Rs.setIdx, h1, Res.pure_eq_ok, Res.ok_bind, bind,
     Res.bind]
 
 /-- writing through `get_mut(i, j)` is `set(i, j, ·)` -/
 theorem tbGetMut_put_eq_model (t : Traceback) (i j : Nat) (v : TracebackCell) (hs : Shaped t) (hi : i < t.rows)
     (hj : j < t.cols) : tbGetMut_put t i j v = Res.ok { t with matrix := t.matrix.set (i * t.cols + j) v } := by
   obtain ⟨h1, h2, h3⟩ := shaped_idx hs hi hj
+  have h3' : j + i * t.cols < 2 ^ 64 := by omega
+  have h2' : t.cols * i < 2 ^ 64 := by rw [Nat.mul_comm]; exact h2
   unfold tbGetMut_put
-  simp only [Rs.assert, hi, hj, decide_true, if_true, Rs.add, Rs.mul, h2, h3, Rs.setIdx, h1, Res.pure_eq_ok, Res.ok_bind, bind,
+  simp only [Rs.assert, hi, hj, decide_true, if_true, Rs.add, Rs.mul, h2, h3, h2', h3', Nat.add_comm j (i * t.cols), Nat.mul_comm t.cols i, Rs.setIdx, h1, Res.pure_eq_ok, Res.ok_bind, bind,
     Res.bind]
 
 /-- a row or column index outside the dimensions is refused (the `debug_assert!`s, read as `assert!`) -/
